@@ -27,12 +27,13 @@ func init() {
 		Assumptions: []string{"non-empty strictly ascending key lists, maxSize >= 1"},
 		Flavours:    releaseThenGo126,
 		Required: []string{"single-key-list", "maxSize=1", "maxSize>=len", "shard/single-key", "shard/full", "key-equals-common-prefix-of-successors", "split/restart-on-shorter-prefix",
-			"first-byte-distinct", "bytes/nul", "bytes/>=0x80", "deep-common-prefix", "fan-out/257-children", "fan-out/256-children"},
+			"first-byte-distinct", "bytes/nul", "bytes/>=0x80", "deep-common-prefix", "fan-out/257-children", "fan-out/256-children", "keys>=40000"},
 		Families: func(c *mon.Config) []mon.Family {
 			fams := []mon.Family{
 				{Name: "universe-subsets", N: 1 << 12, Run: c17Subsets},
 				{Name: "keyzoo", N: c.Pick(10000, 2000000), Run: c17Zoo},
 				{Name: "fan-out", N: 3 * 4 * 3, Run: c17FanOut},
+				{Name: "many-keys", N: c.Pick(2, 40), Run: c17ManyKeys},
 			}
 			if c.Thorough() {
 				fams = append(fams, mon.Family{Name: "large", N: 2000, Run: c17Large})
@@ -282,4 +283,26 @@ func c17FanOut(w *mon.W, idx int) {
 	w.Sample(func() interface{} {
 		return mon.D{"prefix": fmt.Sprintf("%q", prefix), "shape": shape, "nkeys": len(keys), "what": "one node with 255..257 children"}
 	})
+}
+
+// c17ManyKeys: 40000..70000 short keys with small maxSize: more than 2^15 shards.
+func c17ManyKeys(w *mon.W, idx int) {
+	r := w.Rng
+	n := 40000 + r.Intn(30000)
+	raw := make([]string, 0, n)
+	for i := 0; i < n; i++ {
+		raw = append(raw, string([]byte{byte(i >> 16), byte(i >> 8), byte(i)})+string(gen.ZooBytes(r, r.Intn(2))))
+		if i&4095 == 0 {
+			w.Tick()
+		}
+	}
+	keys := gen.SortedUnique(raw)
+	for _, ms := range []int{1, 2, 300} {
+		if !c17Check(w, keys, ms) {
+			return
+		}
+		w.Tick()
+	}
+	w.Bucket("keys>=40000")
+	w.Sample(func() interface{} { return mon.D{"nkeys": len(keys), "maxSize": []int{1, 2, 300}} })
 }
